@@ -22,6 +22,7 @@ import (
 	"runtime/debug"
 	"strings"
 	"sync"
+	"syscall"
 	"testing"
 	"time"
 
@@ -45,7 +46,12 @@ func TestMain(m *testing.M) {
 
 const (
 	workerName = "c04"
-	watchdog   = 20 * time.Second // expected: well under 50 ms per case
+	// A case is expected to take well under 50 ms. The worker gives up on a case after cpuBudget of
+	// process CPU time (not wall time: ten builders share the machine and a starved worker is not
+	// a wedged parser); the parent's wall-clock watchdog is only the backstop for a worker that
+	// neither answers nor burns CPU.
+	cpuBudget = 20 * time.Second
+	watchdog  = 5 * time.Minute
 )
 
 type wreq struct {
@@ -60,6 +66,7 @@ type wresp struct {
 	Classes    []string `json:"classes,omitempty"`
 	Excluded   []string `json:"excluded,omitempty"`
 	Discard    string   `json:"discard,omitempty"`
+	Timeout    bool     `json:"timeout,omitempty"` // the case exhausted cpuBudget; the worker exits after answering
 }
 
 var (
@@ -110,11 +117,38 @@ func serve(raw json.RawMessage) json.RawMessage {
 		for _, k := range rq.Known {
 			activeKnown[k] = true
 		}
-		o := fn(rq.Case)
-		out = wresp{Fail: o.Fail, Nontrivial: o.Nontrivial, Classes: o.Classes, Excluded: o.Excluded, Discard: o.Discard}
+		done := make(chan harness.Outcome, 1)
+		go func() { done <- fn(rq.Case) }()
+		start := cpuTime()
+		tick := time.NewTicker(20 * time.Millisecond)
+		defer tick.Stop()
+	wait:
+		for {
+			select {
+			case o := <-done:
+				out = wresp{Fail: o.Fail, Nontrivial: o.Nontrivial, Classes: o.Classes, Excluded: o.Excluded, Discard: o.Discard}
+				break wait
+			case <-tick.C:
+				if used := cpuTime() - start; used > cpuBudget {
+					out = wresp{Timeout: true, Fail: fmt.Sprintf("the case consumed %v of CPU time without finishing (expected < 50 ms): the parser stopped making progress", used.Round(time.Second))}
+					// the goroutine cannot be stopped: leave once the answer is on its way
+					go func() { time.Sleep(500 * time.Millisecond); os.Exit(5) }()
+					break wait
+				}
+			}
+		}
 	}
 	b, _ := json.Marshal(out)
 	return b
+}
+
+// cpuTime is the CPU time (user + system) this process has consumed.
+func cpuTime() time.Duration {
+	var ru syscall.Rusage
+	if err := syscall.Getrusage(syscall.RUSAGE_SELF, &ru); err != nil {
+		return 0
+	}
+	return time.Duration(ru.Utime.Nano() + ru.Stime.Nano())
 }
 
 func activeKnownList() []string {
@@ -161,6 +195,15 @@ func remote[C any](facet string, local func(C) harness.Outcome) func(C) harness.
 				if err := json.Unmarshal(resp, &w); err != nil {
 					return harness.Outcome{Fail: "harness: undecodable worker answer: " + err.Error()}
 				}
+				if w.Timeout {
+					theWorker.Close() // it is on its way out; the next request gets a fresh one
+					theWorker = harness.NewWorker(workerName)
+					if first != "" {
+						return harness.Outcome{Fail: w.Fail}
+					}
+					first = w.Fail
+					continue
+				}
 				o := harness.Outcome{Fail: w.Fail, Nontrivial: w.Nontrivial, Classes: w.Classes, Excluded: w.Excluded, Discard: w.Discard}
 				if first != "" {
 					o.Classes = append(o.Classes, "unconfirmed-worker-failure")
@@ -173,7 +216,7 @@ func remote[C any](facet string, local func(C) harness.Outcome) func(C) harness.
 				}
 				first = d
 			case harness.WorkerTimeout:
-				d := fmt.Sprintf("no answer within %v (expected < 50 ms): the parser stopped making progress", watchdog)
+				d := fmt.Sprintf("no answer within %v of wall-clock time and no CPU budget verdict either (expected < 50 ms)", watchdog)
 				if first != "" {
 					return harness.Outcome{Fail: d}
 				}
@@ -736,8 +779,8 @@ func checkBytesLocal(c bytesCase) harness.Outcome {
 
 var bytesFacet = harness.Register(&harness.Facet[bytesCase]{
 	Name: "bytes",
-	Rule: "rapid: one of raw bytes (0-96) | 1-40 fragments of a JS alphabet (keywords, every punctuator, literal pieces, comment openers, escapes, every line terminator and ES5 white space, NUL, invalid / truncated UTF-8, encoded surrogates, sourceMappingURL trailers) | a rendered valid program (random trivia) cut to a random prefix / suffix / infix (also inside a multi-byte character) | the same with 1-3 byte replacements / deletions / insertions | an opener repeated 2..10^4 times (at most 16 KB per repeated piece) + middle + closer repeated d / d-1 / d+1 / 0 times (42 openers: brackets, unary and binary operators, every statement head, function literals, accessors, comments, strings); parser mode 0 or StoreComments; checked: no panic, the process survives (worker subprocess, 20 s watchdog), error => non-empty ErrorList with non-empty messages and positions inside the text (1-based line, 1-based column counted in characters, the unit file.Position documents), accepted => spans and walker as in facet trees; non-trivial = at least 4 non-blank bytes; distinct by JSON of the case",
-	Quick: 5000, Thorough: 24000,
+	Rule: "rapid: one of raw bytes (0-96) | 1-40 fragments of a JS alphabet (keywords, every punctuator, literal pieces, comment openers, escapes, every line terminator and ES5 white space, NUL, invalid / truncated UTF-8, encoded surrogates, sourceMappingURL trailers) | a rendered valid program (random trivia) cut to a random prefix / suffix / infix (also inside a multi-byte character) | the same with 1-3 byte replacements / deletions / insertions | an opener repeated 2..10^4 times (at most 16 KB per repeated piece) + middle + closer repeated d / d-1 / d+1 / 0 times (42 openers: brackets, unary and binary operators, every statement head, function literals, accessors, comments, strings); parser mode 0 or StoreComments; checked: no panic, the process survives (worker subprocess; a case may use 20 s of CPU time), error => non-empty ErrorList with non-empty messages and positions inside the text (1-based line, 1-based column counted in characters, the unit file.Position documents), accepted => spans and walker as in facet trees; non-trivial = at least 4 non-blank bytes; distinct by JSON of the case",
+	Quick: 5000, Thorough: 16000,
 	Gen:   genBytes,
 	Check: remote("bytes", checkBytesLocal),
 })
